@@ -180,6 +180,7 @@ checks["C11"] = {"kani": [
     its("c11_deploy_interchain_token", "deploy_interchain_token / deploy_interchain_token_contract"),
     its("c11_register_canonical_token", "register_canonical_token"), its("c11_registry_views", "token_address / token_manager_type"),
     its("c11_deploy_needs_free_id", "deploy_interchain_token (registry invariant I-ITS)"), its("c11_register_preserves_registry_invariant", "register_canonical_token (registry invariant I-ITS)"),
+    its("c11_remote_deploy_preserves_registry_invariant", "execute_message deploy arm (registry invariant I-ITS)"),
     its_c04[3],
     tok("c11_token_constructor", "__constructor"), tok("c11_token_views", "token_id / is_minter / decimals / name / symbol"),
 ]}
